@@ -251,11 +251,12 @@ def conclude(prop, tier, seed, run, wall):
                           "harness/proj.py projects real objects faithfully (raw attribute reads only)",
                           "harness/zones.py decodes TZif files (cross-checked against plain zoneinfo at setup)"],
           "wall_s": round(wall, 2), "violations": len(fresh)}
-    os.makedirs(EVID, exist_ok=True)
-    tmp = os.path.join(EVID, prop + ".json.tmp%d" % os.getpid())
+    evid = EVID if not os.environ.get("PV_NO_EVIDENCE") else os.path.join(BUILD, "scratch-evidence")
+    os.makedirs(evid, exist_ok=True)
+    tmp = os.path.join(evid, prop + ".json.tmp%d" % os.getpid())
     with open(tmp, "w") as f:
         json.dump(ev, f, indent=1)
-    os.replace(tmp, os.path.join(EVID, prop + ".json"))
+    os.replace(tmp, os.path.join(evid, prop + ".json"))
     print("%s %s: %d events validated (%s), %d TLC states, %d known-finding events, %d violations, %.1fs" % (
         prop, tier, events, dict(per_backend), states, sum(len(v) for v in known.values()), len(fresh), wall))
     return 1 if fresh else 0
